@@ -588,7 +588,8 @@ where
                 warn!("IRQ during sleep/standby/listen?");
             }
             RadioMode::FrequencySynthesis => todo!(),
-            RadioMode::Receive(RxMode::DutyCycle(_)) => todo!(),
+            // prepare_for_rx() accepts the mode; the chip has no receive duty cycle (see do_rx)
+            RadioMode::Receive(RxMode::DutyCycle(_)) => return Err(RadioError::DutyCycleUnsupported),
         }
 
         // If no specific IRQ condition is met, return None
